@@ -520,6 +520,11 @@ def _iter(sx, args, kw, st, node):
     if kind == "list":
         cell = st.alloc({"seq": payload, "pos": V.mk_int(0), "__class__": Conc("listiter")})
         return ok(st, Ref(V.ObjT("listiter"), cell))
+    if kind == "opaque" and not sx.spec_mode:
+        # an iterator over a value nothing is known about (e.g. a module-level container nobody gave a contract): a value
+        # without contract, or the call fails
+        from .sx import Unknown
+        return [R(st, Conc(Unknown("iter(<value without contract>)"))), R(st.fork(), None, Exc("Exception", exact=False))]
     raise Unsupported("iter() of %s" % kind, node)
 
 
@@ -538,6 +543,9 @@ def _next(sx, args, kw, st, node):
             st.getcell(it.cell)["pos"] = Val(V.Int, z3.simplify(pos.term + 1))
             outs.append(R(st, Val(t.elem, t.at(seq.term, pos.term))))
         return outs
+    from .sx import Unknown
+    if isinstance(it, Conc) and isinstance(it.v, Unknown) and not sx.spec_mode:
+        return [R(st, Conc(Unknown("next(%s)" % it.v.why))), R(st.fork(), None, Exc("Exception", exact=False))]
     raise Unsupported("next() of %r" % (it,), node)
 
 
